@@ -476,7 +476,18 @@ func fromEndField(ctx *matchCtx, args []string, fromHead bool, final bool) any {
 	if n < 1 {
 		n = 1
 	}
-	rows, _ := rowsLabels(ctx, final)
+	rows, labels := rowsLabels(ctx, final)
+	// FIRST(A.v) / LAST(A.v): a pattern-variable (or SUBSET) qualifier restricts the rows to those
+	// classified as that variable, as it does for the aggregates.
+	if fld, sym := fieldAndSymbol(args[0]); sym != "" && (ctx.symbols[sym] || ctx.subsets[sym] != nil) {
+		var sel []map[string]any
+		for i, r := range rows {
+			if labelMatches(labels[i], sym, ctx.subsets) {
+				sel = append(sel, r)
+			}
+		}
+		rows, f = sel, fld
+	}
 	if len(rows) == 0 {
 		return nil
 	}
